@@ -8,7 +8,7 @@ import types
 import z3
 
 from . import extract, lib
-from .core import CLASSES, H, Obligation, PathEnd, RefT, Sym, Unsupported
+from .core import BOOL, CLASSES, INT, H, Obligation, PathEnd, RefT, Sym, Unsupported
 from .interp import BoundMethod, Ctx, ExcVal, FuncVal, Interp, PyExc
 
 
@@ -136,6 +136,10 @@ class Contract:
             if not st.feasible(w):
                 continue
             rt = None
+            if ret is None and c.ret_ty in (BOOL, INT):
+                # the contract's case promises a bool / int result, the (edited) function returned None
+                ctx.fail(f"{tag}/post:{c.name}.returns_a_value_of_the_promised_type", "post", "the function returned None where its contract promises a value")
+                continue
             if ret is not None and c.ret_ty is not None:
                 rt = ip.term(ret, c.ret_ty)
             for name, t in c.ensures(pre, post, a, rt):
